@@ -63,6 +63,8 @@ pub struct UniCtx {
     pub legacy: bool,
     /// mixed core: the programs whose bit is set run through the capability API (if expressible there)
     pub legacy_mask: u8,
+    /// direct host: inspection style (see `Universe::inspect`)
+    pub inspect: u8,
     in_update: AtomicBool,
     pub reentered: AtomicBool,
 }
@@ -96,6 +98,7 @@ impl UniCtx {
             chans: (0..CHANS).map(|_| Arc::new(crate::rt::Chan::default())).collect(),
             legacy,
             legacy_mask,
+            inspect: u.inspect,
             in_update: AtomicBool::new(false),
             reentered: AtomicBool::new(false),
         });
